@@ -447,7 +447,20 @@ def _reg(name, kind, sync, make, nfn=0):
 
 
 _reg("zip", "iter", lambda S, F, P: builtins.zip(*S), lambda S, F, P: A.zip(*S))
-_reg("zip_strict", "iter", lambda S, F, P: builtins.zip(*S, strict=True), lambda S, F, P: A.zip(*S, strict=True))
+class _TruthyFlag:
+    """A flag object that is true without being ``True`` (a numpy bool, a settings object)."""
+
+    def __bool__(self) -> bool:
+        return True
+
+
+def _strict_flag(P: dict) -> Any:
+    # (``strict`` is used for its truth value, like by the builtin: 1 and other true objects mean strict)
+    return {None: True, 1: 1, "obj": _TruthyFlag()}[P.get("strict_flag")]
+
+
+_reg("zip_strict", "iter", lambda S, F, P: builtins.zip(*S, strict=_strict_flag(P)),
+     lambda S, F, P: A.zip(*S, strict=_strict_flag(P)))
 _reg("map", "iter", lambda S, F, P: builtins.map(F[0], *S), lambda S, F, P: A.map(F[0], *S), 1)
 _reg("filter", "iter", lambda S, F, P: builtins.filter(F[0], S[0]), lambda S, F, P: A.filter(F[0], S[0]), 1)
 _reg("enumerate", "iter", lambda S, F, P: builtins.enumerate(S[0], P.get("start", 0)),
